@@ -182,4 +182,7 @@ class ConcatenatedObject(Concatenated, ObjectBase):
                 continue
 
             self.concatenator.remove_entity(child)
-            self._children.remove(child)
+
+            # removing the last data of a property group already removed the group
+            if child in self._children:
+                self._children.remove(child)
